@@ -278,6 +278,29 @@ def _memcheck(seed, n):
         shutil.rmtree(d, ignore_errors=True)
 
 
+def _nohook_compare(seed, n):
+    """the guard is inert: the same scenarios give the same transcripts with and without -DYAEP_VERIF"""
+    rng = random.Random(seed * 17 + 3)
+    pool_texts = [desc.print_desc(rng, g)[0] for nm, g in gen.pool() if desc.printable(g)]
+    lines = []
+    for cid in range(n):
+        kind, L, feats = gen_case(rng, cid, pool_texts)
+        lines += L
+    text = "\n".join(lines) + "\n"
+    a = run.run_text(build.build("asan"), text)
+    b = run.run_text(build.build("nohook"), text)
+    diffs = 0
+    for cid in a:
+        if cid not in b:
+            diffs += 1
+            continue
+        sa = [{k: v for k, v in s.items() if k != "hk"} for s in a[cid].steps]
+        sb = [{k: v for k, v in s.items() if k != "hk"} for s in b[cid].steps]
+        if sa != sb or a[cid].status != b[cid].status:
+            diffs += 1
+    return len(a), diffs
+
+
 def check(tier):
     ck = core.Check("C12", tier)
     shards, n = (16, 1500) if tier == "quick" else (64, 12000)
@@ -291,6 +314,10 @@ def check(tier):
         ck.violation("memcheck:uninitialised_or_invalid@valgrind", err[-600:], {"scenario": scen, "variant": "plain", "report": err})
     elif rc != 0:
         ck.violation("memcheck_run_failed:%d@valgrind" % rc, err[-600:], {"scenario": scen, "variant": "plain", "report": err})
+    ncmp, ndiff = _nohook_compare(ck.seed, 200 if tier == "quick" else 2000)
+    ck.cov["guard_off_build_compared_cases"] = ncmp
+    if ndiff:
+        raise core.HarnessError("hook guard is not inert: %d of %d cases differ between the YAEP_VERIF and the plain build" % (ndiff, ncmp))
     ck.cov["rule"] = ("single-object cases of 9 kinds: random byte strings as descriptions; 1-4x mutated valid "
                       "descriptions; valid descriptions with identifiers up to 300 chars and up to 40 terminals; pool "
                       "grammars with all names replaced by 1..400-byte names (arbitrary bytes) plus an injected "
